@@ -447,6 +447,8 @@ def model_request(case, dv, r):
           "prior": prior_rows(case), "t0": q(t_start)}
     if dv.get("blow"):
         rq["blowup"] = True
+    if case["kind"] == "accumulate":
+        rq["acc"] = True  # the driver also evaluates the theorems' boundary predicates (class of F-C15-2 / F-C15-4)
     if case.get("override"):  # update_variables: a new integrator at shifted time 0, results shifted by the time reached
         rq.update(t0="0", shift=q(t_start))
     return rq
@@ -591,13 +593,22 @@ def judge_case(ctx, case, r, m, orc):
     finding = None
     if R.get("outcome") == "steady" and R.get("n") == 2 and r.get("start") is None:
         finding = "F-C15-1"
-    # F-C15-2 / F-C15-4: the criterion is met by a variable that keeps accumulating (relative: |b|*100/|y| < tol; absolute:
-    # drift |b|*100 < tol) — only when the independent oracle finds the criterion met at exactly the step the real run reports
-    if case["kind"] == "accumulate" and n_exact is not None and R.get("n") == n_exact \
-            and R.get("outcome") == "steady" and R.get("start_ok", True):
-        finding = "F-C15-2" if case["rel"] else "F-C15-4"
-        key = "rel_criterion_met_while_accumulating" if case["rel"] else "abs_criterion_met_by_slow_drift"
-        ctx.hist[key] = ctx.hist.get(key, 0) + 1
+    # F-C15-2 / F-C15-4 (policy findings): the criterion is met by a variable that keeps accumulating.  The class predicate is
+    # the hypothesis of the theorems, evaluated by the driver on this input: absolute norm — `accAbsFails` false
+    # (C15_accumulation_fails_iff); relative norm, one positive variable — `accRelFails` false (C15_rel_accumulation_fails_iff);
+    # relative norm, several variables — some comparison within the budget is small (C15_no_false_success, = the model's run).
+    # And only when the independent oracle finds the criterion met at exactly the step the real run reports.
+    if case["kind"] == "accumulate" and m is not None and m.get("boundary"):
+        bd = m["boundary"]
+        predicted = (bd["abs_fails"] is False) if not case["rel"] else \
+            ((bd["rel_fails"] is False) if bd["rel_fails"] is not None else m["loop"]["outcome"] == "steady")
+        if predicted != (n_exact is not None):
+            ctx.violation(case, {"boundary": bd, "oracle_n": n_exact}, "theorem boundary predicate and closed-form oracle disagree")
+        if predicted and n_exact is not None and R.get("n") == n_exact and R.get("outcome") == "steady" \
+                and R.get("start_ok", True):
+            finding = "F-C15-2" if case["rel"] else "F-C15-4"
+            key = "rel_criterion_met_while_accumulating" if case["rel"] else "abs_criterion_met_by_slow_drift"
+            ctx.hist[key] = ctx.hist.get(key, 0) + 1
     ctx.judge(case, R, S, M, finding=finding,
               what="simulate_to_steady_state(...).get_result() vs closed-form flow from the state the simulator holds")
 
